@@ -218,3 +218,71 @@ pub proof fn lemma_ancestors_below(f: &Fsm, s: u32, a: u32)
         }
     }
 }
+
+/// a non-zero result of the LCCA search has all the other states as proper descendants
+pub proof fn lemma_fca_all_desc(f: &Fsm, cands: Seq<u32>, others: Seq<u32>)
+    ensures
+        first_common_ancestor(f, cands, others) != 0 ==> all_desc(f, others, first_common_ancestor(f, cands, others)),
+    decreases cands.len(),
+{
+    if cands.len() > 0 && !all_desc(f, others, cands[0]) {
+        lemma_fca_all_desc(f, cands.subrange(1, cands.len() as int), others);
+    }
+}
+
+/// every effective target of t is a proper descendant of t's domain (unless the domain is 0)
+pub proof fn lemma_domain_covers_targets(f: &Fsm, g: &GlobalData, t: Transition)
+    requires
+        wf_doc(f),
+    ensures
+        spec_domain(f, g, t) != 0 ==> all_desc(f, eff_targets(f, g, t), spec_domain(f, g, t)),
+{
+    let ts = eff_targets(f, g, t);
+    if ts.len() != 0 && !(is_internal(t) && is_compound(f, t.source) && all_desc(f, ts, t.source)) {
+        let l = seq![t.source] + ts;
+        let anc = proper_ancestors(f, l[0], 0);
+        let pred = |s: u32| is_compound_or_root(f, s);
+        let others = l.subrange(1, l.len() as int);
+        assert(others =~= ts);
+        lemma_fca_all_desc(f, anc.filter(pred), others);
+    }
+}
+
+pub open spec fn k_top(f: &Fsm) -> int {
+    4 * (maxr(f) as int) + 12
+}
+
+/// W3C computeEntrySet: the first k transitions processed
+pub open spec fn sp_entry_k(f: &Fsm, g: &GlobalData, ts: Seq<u32>, k: int, x: Ent) -> Ent
+    decreases k,
+{
+    if k <= 0 || k > ts.len() {
+        x
+    } else {
+        let x0 = sp_entry_k(f, g, ts, k - 1, x);
+        let t = tr(f, ts[k - 1]);
+        let x1 = sp_desc_list(f, g, t.target@, t.target@.len() as int, x0, k_top(f));
+        let et = eff_targets(f, g, t);
+        sp_anc_list(f, g, et, et.len() as int, spec_domain(f, g, t), x1, k_top(f))
+    }
+}
+
+pub open spec fn spec_entry_set(f: &Fsm, g: &GlobalData, ts: Seq<u32>, x: Ent) -> Ent {
+    sp_entry_k(f, g, ts, ts.len() as int, x)
+}
+
+pub proof fn lemma_k_top(f: &Fsm, s: u32)
+    requires
+        wf_tree(f),
+        valid_id(f, s),
+        is_history(f, s) ==> parent_of(f, s) != 0,
+    ensures
+        0 <= k_desc(f, s) < k_top(f),
+        0 <= k_anc(f, s) < k_top(f),
+        0 <= k_anc(f, 0) < k_top(f),
+{
+    lemma_ht_le_max(f, s);
+    if is_history(f, s) {
+        lemma_ht_le_max(f, parent_of(f, s));
+    }
+}
